@@ -95,3 +95,11 @@ m("else_branch_swallow_return", ["C07"], EV, "                let v = eval_stmts
 m("eq_keys_from_rhs_only", ["C10"], EV, "            for (k, x) in &xs {\n                let y =\n                    if let Some(y) = ys.get(k) {\n                        y\n                    } else {\n                        return Ok(false);\n                    };", "            for (k, x) in &xs {\n                let y =\n                    if let Some(y) = ys.get(k) {\n                        y\n                    } else {\n                        continue;\n                    };")
 m("eq_identity_shortcut_all", ["C10"], EV, "        (Value::Str(a), Value::Str(b)) =>\n            Ok(a == b),\n\n        (Value::List(xs), Value::List(ys)) => {", "        (Value::Str(a), Value::Str(b)) =>\n            Ok(a.len() == b.len() && (a.len() < 2 || a == b)),\n\n        (Value::List(xs), Value::List(ys)) => {")
 m("eq_mismatch_false", ["C10", "C16"], EV, "        _ =>\n            Err((\n                String::new(),\n                error::render_type(lhs),\n                error::render_type(rhs),\n            )),\n    }\n}", "        (Value::Null, _) | (_, Value::Null) => Ok(false),\n        _ =>\n            Err((\n                String::new(),\n                error::render_type(lhs),\n                error::render_type(rhs),\n            )),\n    }\n}")
+m("index_write_no_update", ["C12"], BI, "                    if let Some(slot) = lock_deref!(props).get_mut(&name) {\n                        binary_operation_assign(slot, rhs, op)\n                            .context(BinOpAssignObjectIndexFailed)?;\n\n                        return Ok(());\n                    }", "                    if op.is_some() {\n                    if let Some(slot) = lock_deref!(props).get_mut(&name) {\n                        binary_operation_assign(slot, rhs, op)\n                            .context(BinOpAssignObjectIndexFailed)?;\n\n                        return Ok(());\n                    }\n                    } else if name.is_empty() { return Ok(()); }")
+m("for_object_reverse", ["C12", "C07"], EV, "            let pairs =\n                props\n                    .iter()\n                    .map(|(key, value)| {", "            let pairs =\n                props\n                    .iter()\n                    .rev()\n                    .map(|(key, value)| {")
+m("shorthand_uses_outer", ["C12"], EV, "                                vals.insert(name.to_string(), v);", "                                vals.entry(name.to_string()).or_insert(v);")
+m("list_item_drops_source", ["C14"], EV, "        if !item.is_spread {\n            vals.push(v);\n\n            continue;\n        }", "        if !item.is_spread {\n            vals.push(value::new_val_ref_with_no_source(v.v));\n\n            continue;\n        }")
+m("assign_keeps_old_source", ["C14"], SP, "pub fn set(slot: &mut SourcedValue, v: SourcedValue) {\n    *slot = v;\n}", "pub fn set(slot: &mut SourcedValue, v: SourcedValue) {\n    let old = slot.source.clone();\n    *slot = v;\n    if slot.source.is_none() { slot.source = old; }\n}")
+m("this_from_definition_object", ["C14"], EV, "                    Ok(value::new_val_ref_with_source(v, source_val.v.clone()))", "                    Ok(if matches!(v, Value::Func(_)) && lock_deref!(props).len() > 3 { value::new_val_ref_with_no_source(v) } else { value::new_val_ref_with_source(v, source_val.v.clone()) })")
+m("arity_le", ["C14", "C13"], EV, "                    } else if num_params != got {", "                    } else if num_params < got {")
+m("rest_alias_when_exact", ["C14", "C13"], EV, "                                let rest = arg_vals[num_params-1 ..].to_vec();\n\n                                value::new_list(rest)", "                                let rest = arg_vals[num_params-1 ..].to_vec();\n\n                                if rest.len() == 1 { if let Value::List(_) = rest[0].v { rest[0].clone() } else { value::new_list(rest) } } else { value::new_list(rest) }")
